@@ -2,6 +2,7 @@ import CacheVerif.Props.C11
 import CacheVerif.Proofs.LeafBits
 import CacheVerif.Proofs.DeepLoad
 import CacheVerif.Proofs.DeepLoadM
+import CacheVerif.Proofs.WordsInv
 /-!
 # C10 — keys are matched by Go equality for every comparable key type
 
@@ -193,5 +194,43 @@ example : Deep.T.call 4 exHeapM Gen.Deep.T_Map_Load [.key 5] = some [.val 50, .b
 example : Deep.T.call 4 exHeapM Gen.Deep.T_Map_Load [.key 7] = some [.val 70, .bool true] := by rfl
 example : Deep.T.call 4 exHeapM Gen.Deep.T_Map_Load [.key 2] = some [.val 20, .bool true] := by rfl
 example : Deep.T.call 4 exHeapM Gen.Deep.T_Map_Load [.key 9] = some [.zeroV, .bool false] := by rfl
+
+/-! ### the representation the lookup theorems assume is an invariant of the write path's word arithmetic -/
+
+omit [Inhabited V] in
+/-- **`MapOf`**: a fresh bucket is represented, and insertion (`setByte(meta, h2, i)` + entry), a new overflow bucket
+(`setByte(defaultMeta, h2, 0)`), in-place update (same key, `meta` untouched) and deletion (`setByte(meta, emptyMetaSlot, i)`
++ nil) keep `RepB` - for every hash-byte function; so every heap these updates reach meets the hypothesis of
+`C10_source_load_is_model_load` -/
+theorem C10_meta_words_stay_representative (hk : K → BitVec 8) :
+    Model.Words.RepB hk (⟨Gen.defaultMeta, [none, none, none, none, none]⟩ : Model.Words.BucketOf K V) ∧
+    (∀ (b : Model.Words.BucketOf K V), Model.Words.RepB hk b → ∀ i, i < 5 → ∀ (k : K) (v : V),
+      Model.Words.RepB hk ⟨Gen.setByte b.metaw (hk k) i, b.entries.set i (some (k, v))⟩) ∧
+    (∀ (k : K) (v : V),
+      Model.Words.RepB hk (⟨Gen.setByte Gen.defaultMeta (hk k) 0, [some (k, v), none, none, none, none]⟩ : Model.Words.BucketOf K V)) ∧
+    (∀ (b : Model.Words.BucketOf K V), Model.Words.RepB hk b → ∀ i, i < 5 → ∀ (k : K) (v v' : V),
+      b.entries.getD i none = some (k, v) → Model.Words.RepB hk ⟨b.metaw, b.entries.set i (some (k, v'))⟩) ∧
+    (∀ (b : Model.Words.BucketOf K V), Model.Words.RepB hk b → ∀ i, i < 5 →
+      Model.Words.RepB hk ⟨Gen.setByte b.metaw Gen.emptyMetaSlot i, b.entries.set i none⟩) :=
+  ⟨Proofs.WordsInv.repB_fresh hk, fun b h i hi k v => Proofs.WordsInv.repB_insert hk b h i hi k v,
+   fun k v => Proofs.WordsInv.repB_newBucket hk k v, fun b h i hi k v v' hs => Proofs.WordsInv.repB_update hk b h i hi k v v' hs,
+   fun b h i hi => Proofs.WordsInv.repB_delete hk b h i hi⟩
+
+omit [Inhabited V] in
+/-- **`Map`**: the same for the top-hash word - fresh bucket, `storeTopHash`, in-place update, `eraseTopHash`, and taking /
+releasing the spin lock that lives in bit 0 of the same word -/
+theorem C10_tophash_words_stay_representative (hashOf : K → BitVec 64) :
+    (∀ w, Model.Words.RepM hashOf (⟨w, [none, none, none]⟩ : Model.Words.BucketM K V)) ∧
+    (∀ (b : Model.Words.BucketM K V), Model.Words.RepM hashOf b → ∀ i, i < 3 → ∀ (k : K) (v : V),
+      Model.Words.RepM hashOf ⟨Gen.storeTopHash (hashOf k) b.word i, b.slots.set i (some (k, v))⟩) ∧
+    (∀ (b : Model.Words.BucketM K V), Model.Words.RepM hashOf b → ∀ i, i < 3 → ∀ (k : K) (v v' : V),
+      b.slots.getD i none = some (k, v) → Model.Words.RepM hashOf ⟨b.word, b.slots.set i (some (k, v'))⟩) ∧
+    (∀ (b : Model.Words.BucketM K V), Model.Words.RepM hashOf b → ∀ i, i < 3 →
+      Model.Words.RepM hashOf ⟨Gen.eraseTopHash b.word i, b.slots.set i none⟩) ∧
+    (∀ (b : Model.Words.BucketM K V), Model.Words.RepM hashOf b →
+      Model.Words.RepM hashOf ⟨b.word ||| 1#64, b.slots⟩ ∧ Model.Words.RepM hashOf ⟨b.word &&& ~~~1#64, b.slots⟩) :=
+  ⟨fun w => Proofs.WordsInv.repM_fresh hashOf w, fun b h i hi k v => Proofs.WordsInv.repM_insert hashOf b h i hi k v,
+   fun b h i hi k v v' hs => Proofs.WordsInv.repM_update hashOf b h i hi k v v' hs,
+   fun b h i hi => Proofs.WordsInv.repM_delete hashOf b h i hi, fun b h => Proofs.WordsInv.repM_lock hashOf b h⟩
 
 end Props.C10
